@@ -622,7 +622,26 @@ func (ex *Exec) callSymbolicFunc(st *State, instr ssa.Instruction, c *ssa.CallCo
 	if h, ok := symFuncModels[f.Sym]; ok {
 		return h(ex, st, instr, f, args)
 	}
-	// pure uninterpreted application for scalar arguments and a boolean result
+	// pure uninterpreted application for scalar/slice arguments and a boolean result: a predicate
+	// callback (assumed not to modify its arguments); the same term as f(args) in a contract
+	if sig.Results().Len() == 1 && isBool(sig.Results().At(0).Type()) {
+		var ts []*Term
+		okArgs := true
+		for _, a := range args {
+			switch x := a.(type) {
+			case *Term:
+				ts = append(ts, x)
+			case *VSlice:
+				ts = append(ts, x.Ref, x.Off, x.Len)
+			default:
+				okArgs = false
+			}
+		}
+		if okArgs {
+			ex.cur.libCalls["function-typed parameter "+f.Sym+": a pure predicate of its arguments"] = true
+			return App("fn."+f.Sym, SBool, ts...)
+		}
+	}
 	ex.cur.unmodelled["function value "+f.Sym] = true
 	return ex.havocCall(st, instr, sig, args, "fn."+f.Sym)
 }
